@@ -242,6 +242,197 @@ impl System for ISnapSys {
 	}
 }
 
+// ---------------------------------------------------------------- snapshots far into a stream
+
+/// One long deterministic stream per instance; the single deviation is the snapshot, taken after ANY number
+/// of steps (counters and cursors far beyond 255, full rotations of the largest windows); original and
+/// restored instance then follow the same stream for `tail` more steps.
+#[derive(Clone)]
+struct LSt {
+	a: Box<dyn Subject>,
+	b: Option<Box<dyn Subject>>,
+	t: u32,
+	age: u32,
+	len: u32,
+	tail: u32,
+}
+struct LongSnapSys {
+	name: String,
+	spec_name: &'static str,
+	/// (parameters, stream length, steps after the snapshot)
+	params: Vec<(Params, u32, u32)>,
+	alphabet: Vec<In>,
+}
+fn pick(t: u32, n: usize) -> usize {
+	((t as usize) * 7 + (t as usize) / 5 + (t as usize) / 64) % n
+}
+impl System for LongSnapSys {
+	type State = LSt;
+	type Act = bool;
+	fn name(&self) -> String {
+		self.name.clone()
+	}
+	fn inits(&self) -> Vec<(LSt, String)> {
+		let sp = spec(self.spec_name);
+		let mut v = vec![];
+		for (p, len, tail) in &self.params {
+			if let Ok(Ok(a)) = catch(|| (sp.ctor)(p, &self.alphabet[0])) {
+				v.push((LSt { a, b: None, t: 0, age: 0, len: *len, tail: *tail }, format!("{}({}) v0={}", self.spec_name, p.show(), self.alphabet[0].show())));
+			}
+		}
+		v
+	}
+	fn actions(&self, s: &LSt, _: u32) -> Vec<(bool, u8)> {
+		if s.b.is_some() {
+			return if s.age >= s.tail { vec![] } else { vec![(false, 0)] };
+		}
+		if s.t >= s.len { vec![(true, 1)] } else { vec![(false, 0), (true, 1)] }
+	}
+	fn show_act(&self, a: &bool) -> String {
+		if *a { "snapshot+restore".into() } else { "next-of-the-stream".into() }
+	}
+	fn step(&self, s: &LSt, a: &bool) -> Step<LSt> {
+		let name = self.spec_name;
+		let mut n = s.clone();
+		if *a {
+			let j = match catch(|| n.a.to_json()) {
+				Ok(Ok(j)) => j,
+				Ok(Err(e)) => return Step::Violation(Failure::new(format!("{name}/serialize/error"), e)),
+				Err(p) => return Step::Violation(Failure::new(format!("{name}/serialize/panic"), p.msg)),
+			};
+			if nonfinite(&n.a.debug_key()) {
+				return Step::Exempt(n, "state holds a non-finite float (JSON cannot carry it)");
+			}
+			return match catch(|| n.a.from_json(&j)) {
+				Ok(Ok(b)) => {
+					n.b = Some(b);
+					Step::Next(n)
+				}
+				Ok(Err(e)) => Step::Violation(Failure::new(format!("{name}/restore/rejected/far-into-the-stream"), format!("own snapshot after {} steps rejected: {e}", s.t))),
+				Err(p) => Step::Violation(Failure::new(format!("{name}/restore/panic/far-into-the-stream"), format!("after {} steps: {}", s.t, p.msg))),
+			};
+		}
+		let i = self.alphabet[pick(n.t, self.alphabet.len())];
+		n.t += 1;
+		let oa = match catch(|| n.a.next(&i)) {
+			Ok(o) => o,
+			Err(_) => return Step::Prune,
+		};
+		if let Some(b) = n.b.as_mut() {
+			let ob = match catch(|| b.next(&i)) {
+				Ok(o) => o,
+				Err(p) => return Step::Violation(Failure::new(format!("{name}/restored/panic"), format!("restored instance panicked: {}", p.msg))),
+			};
+			n.age += 1;
+			if !oa.same_bits(&ob) {
+				return Step::Violation(Failure::new(format!("{name}/restored/output-differs/far-into-the-stream"), format!("snapshot after {} steps; {} steps later: original {} vs restored {}", n.t - n.age, n.age, oa.show(), ob.show())));
+			}
+		}
+		Step::Next(n)
+	}
+}
+
+#[derive(Clone)]
+struct ILSt {
+	a: Box<dyn IndInst>,
+	b: Option<Box<dyn IndInst>>,
+	cfg: usize,
+	stream: u8,
+	t: u32,
+	age: u32,
+	prev_close: f64,
+}
+struct ILongSnapSys {
+	name: String,
+	cfgs: Vec<Box<dyn IndCfg>>,
+	len: u32,
+	tail: u32,
+}
+/// stream 0: volatile (every step a new value); stream 1: a triangle wave (period 17) whose amplitude
+/// itself swells and fades (period 113) on a slow drift - rallies, ranges and converging triangles
+fn long_candle(stream: u8, t: u32, prev_close: f64) -> Candle {
+	if stream == 0 {
+		return checks::indcheck::volatile_candle(t, prev_close);
+	}
+	let tri = |t: u32, p: u32| -> f64 {
+		let x = (t % p) as f64 / p as f64;
+		if x < 0.5 { 4.0 * x - 1.0 } else { 3.0 - 4.0 * x }
+	};
+	let amp = 1.0 + 6.0 * (tri(t, 113) + 1.0) / 2.0;
+	let c = 100.0 + 0.03 * t as f64 + amp * tri(t, 17);
+	let o = prev_close;
+	type V = yata::core::ValueType;
+	Candle { open: o as V, high: (o.max(c) + 0.25 * (t % 3) as f64) as V, low: (o.min(c) - 0.25 * (t % 4) as f64) as V, close: c as V, volume: (1 + (t * 5) % 7) as V }
+}
+impl System for ILongSnapSys {
+	type State = ILSt;
+	type Act = bool;
+	fn name(&self) -> String {
+		self.name.clone()
+	}
+	fn inits(&self) -> Vec<(ILSt, String)> {
+		let mut v = vec![];
+		for (i, c) in self.cfgs.iter().enumerate() {
+			for stream in [0u8, 1] {
+				let c0 = long_candle(stream, 0, if stream == 0 { 10.0 } else { 100.0 });
+				if let Ok(Ok(a)) = catch(|| c.init(&c0)) {
+					v.push((ILSt { a, b: None, cfg: i, stream, t: 1, age: 0, prev_close: c0.close as f64 }, format!("{} {} stream={}", c.const_name(), c.to_json().unwrap_or_default(), if stream == 0 { "volatile" } else { "swelling-triangle-wave" })));
+				}
+			}
+		}
+		v
+	}
+	fn actions(&self, s: &ILSt, _: u32) -> Vec<(bool, u8)> {
+		if s.b.is_some() {
+			return if s.age >= self.tail { vec![] } else { vec![(false, 0)] };
+		}
+		if s.t >= self.len { vec![(true, 1)] } else { vec![(false, 0), (true, 1)] }
+	}
+	fn show_act(&self, a: &bool) -> String {
+		if *a { "snapshot+restore".into() } else { "next-of-the-stream".into() }
+	}
+	fn step(&self, s: &ILSt, a: &bool) -> Step<ILSt> {
+		let name = self.cfgs[s.cfg].const_name();
+		let mut n = s.clone();
+		if *a {
+			let j = match catch(|| n.a.to_json()) {
+				Ok(Ok(j)) => j,
+				Ok(Err(e)) => return Step::Violation(Failure::new(format!("{name}/serialize/error"), e)),
+				Err(p) => return Step::Violation(Failure::new(format!("{name}/serialize/panic"), p.msg)),
+			};
+			if nonfinite(&n.a.debug_key()) {
+				return Step::Exempt(n, "state holds a non-finite float (JSON cannot carry it)");
+			}
+			return match catch(|| n.a.from_json(&j)) {
+				Ok(Ok(b)) => {
+					n.b = Some(b);
+					Step::Next(n)
+				}
+				Ok(Err(e)) => Step::Violation(Failure::new(format!("{name}/restore/rejected/far-into-the-stream"), format!("own snapshot after {} steps rejected: {e}", s.t))),
+				Err(p) => Step::Violation(Failure::new(format!("{name}/restore/panic/far-into-the-stream"), format!("after {} steps: {}", s.t, p.msg))),
+			};
+		}
+		let c = long_candle(n.stream, n.t, n.prev_close);
+		n.t += 1;
+		n.prev_close = c.close as f64;
+		let oa = match catch(|| n.a.next(&c)) {
+			Ok(o) => o,
+			Err(_) => return Step::Prune,
+		};
+		if let Some(b) = n.b.as_mut() {
+			let ob = match catch(|| b.next(&c)) {
+				Ok(o) => o,
+				Err(p) => return Step::Violation(Failure::new(format!("{name}/restored/panic"), p.msg)),
+			};
+			n.age += 1;
+			if rbits(&oa) != rbits(&ob) {
+				return Step::Violation(Failure::new(format!("{name}/restored/output-differs/far-into-the-stream"), format!("snapshot after {} steps; {} steps later: original {oa:?} vs restored {ob:?}", n.t - n.age, n.age)));
+			}
+		}
+		Step::Next(n)
+	}
+}
+
 fn adversarial(h: &mut H) {
 	use yata::methods::SMM;
 	let sink = VioSink::new("Serde/adversarial");
@@ -434,6 +625,38 @@ fn main() {
 	h.go(&ISnapSys { cfgs: float17_configs(), alphabet: ks[..3].to_vec(), pre: 2, tag: "float-parameters-with-17-digits".into() }, &Limits::depth(20).wall_secs(600), true);
 	if thorough {
 		h.go(&ISnapSys { cfgs: indicator_configs(true), alphabet: ks[..3].to_vec(), pre: 3, tag: "ma-kinds".into() }, &Limits::depth(20).wall_secs(900), true);
+	}
+	// snapshots far into a stream: every method (small and boundary parameters), CollapseTimeframe with
+	// periods beyond 256, every indicator (default, small, every float parameter small / large)
+	for sp in registry() {
+		let name: &'static str = sp.name;
+		let mut params: Vec<(Params, u32, u32)> = small_params(&sp).into_iter().chain(edge_params(&sp)).map(|p| (p, if thorough { 1100 } else { 560 }, 24)).collect();
+		if name == "CollapseTimeframe" {
+			for p in [257usize, 300, 1000] {
+				params.push((Params::U(p), p as u32 + 8, p as u32 + 4));
+			}
+		}
+		let mut alphabet = inputs(sp.input);
+		alphabet.truncate(5);
+		h.go(&LongSnapSys { name: format!("{name}/snapshot-far-into-a-stream"), spec_name: name, params, alphabet }, &Limits::deviation(1, 4000).wall_secs(300), true);
+	}
+	for c in defaults() {
+		let name = c.const_name();
+		let mut cfgs = checks::indcheck::indicator_configs_small3(name);
+		let base: Vec<Box<dyn IndCfg>> = cfgs.iter().map(|c| c.boxed_clone()).collect();
+		for b in &base {
+			for (key, val) in json_map(&b.to_json().unwrap()) {
+				if val.is_f64() {
+					for t in ["0.01", "0.45", "0.9", "2.5"] {
+						let mut x = b.boxed_clone();
+						if x.set(&key, t.to_string()).is_ok() && x.validate() {
+							cfgs.push(x);
+						}
+					}
+				}
+			}
+		}
+		h.go(&ILongSnapSys { name: format!("{name}/snapshot-far-into-a-stream"), cfgs, len: if thorough { 700 } else { 330 }, tail: 24 }, &Limits::deviation(1, 4000).wall_secs(300), true);
 	}
 	if !h.is_replay() {
 		adversarial(&mut h);
